@@ -36,6 +36,10 @@ def make_world(rng, d, k):
         p = os.path.join(src, rel)
         fsutil.make_file(p, size, data if data is not None else [(0, size)], tag=k * 10 + i + 1, sync=(data is not None))
         files[rel] = size
+    # timestamps at the edges (before 1970, the epoch, far future): carrying them over is one step of the finalisation, the
+    # flush is another
+    for rel, ns in (("one.bin", -500_000_000), ("sub/multi.bin", -2_000_000_000_000_000_000), ("sub/big.bin", 0), ("empty", 4_102_444_800_000_000_001)):
+        os.utime(os.path.join(src, rel), ns=(ns, ns))
     os.symlink("one.bin", os.path.join(src, "lnk"))
     # extended attributes on some sources: copying them is best effort (a refusal by the destination is only warned
     # about) and must not cost the flush
@@ -103,7 +107,7 @@ def run(ctx, out):
     quick = ctx.tier == "quick"
     sup = core.build_sup()
     d0 = ctx.work.fresh("c18")
-    out.rule = ("trees with single-block, multi-block (2..16 blocks of 16 KiB), empty, all-hole, leading- and trailing-hole files; "
+    out.rule = ("trees (source mtimes before 1970, at the epoch, in 2100) with single-block, multi-block (2..16 blocks of 16 KiB), empty, all-hole, leading- and trailing-hole files; "
                 "both drivers, workers 1/2/4/16, random thread holds (several seeds), copy_file_range available or failing with "
                 "ENOSYS/EXDEV (user-space fallback), extended attributes refused by the destination (ENOSPC/EPERM/ENOTSUP/E2BIG/EACCES: "
                 "best effort, only warned about), ONE flush of the run refused (EINVAL/ENOSYS/EOPNOTSUPP/EIO: the others must still happen), single-file invocations with the destination spelled as a bare name / ./name / sub/name / absolute / a directory / -t DIR; --fsync on (oracle: fsync entered after the last data/size call of the "
